@@ -18,6 +18,21 @@
 (* property (Converged, RootDependsOnlyOnPrefix, Completes) is stated      *)
 (* independently of the code at the end.                                   *)
 (*                                                                         *)
+(* Known findings (KNOWN_FINDINGS.jsonl; letters = elements of Excuse).     *)
+(* Each was first exhibited by TLC on this model and then reproduced on    *)
+(* the real code by the harness; every invariant excuses exactly the       *)
+(* listed history shapes, and checks/c13.py re-runs the model with each    *)
+(* letter removed to show the finding is still there.                      *)
+(*  a  RollBackward below every stored block removes nothing               *)
+(*  b  the root offered for a beacon strictly inside a range whose root is *)
+(*     already stored uses the full range                                  *)
+(*  c  a RollBackward to the scan's start point is skipped even when it is *)
+(*     not the echo of FindIntersect                                       *)
+(*  d  an import whose target is already stored returns without asking the *)
+(*     node                                                                *)
+(*  e  after a failed import the cursor (last_polled_point) is behind the  *)
+(*     store                                                               *)
+(*                                                                         *)
 (* Abstractions: a block is <<number, fork generation>> (its hash); its    *)
 (* slot and whether it carries a transaction are functions of that pair;   *)
 (* a Merkle root is the set of blocks it was computed over (hashes are     *)
@@ -32,6 +47,7 @@ CONSTANTS
     ExtSteps,     \* allowed sizes of one chain extension
     ForkPoints,   \* allowed fork points (block numbers, 0 = origin)
     ForkGrow,     \* by how many blocks a new fork is longer than what it replaces (never shorter)
+    MaxDepth,     \* the deepest roll-back the node performs (blocks below its tip)
     Targets,      \* allowed import targets
     MaxPoll,      \* max_roll_forwards_per_poll
     Keep,         \* -1: no pruning, else number_of_blocks_to_keep
@@ -39,7 +55,9 @@ CONSTANTS
     MaxMidEnv,    \* environment actions allowed while an import is scanning
     TxPeriod, TxOn, TxShift,   \* which blocks carry a transaction
     Excuse,       \* subset of {"a", "b", "c"}: known findings excused in the invariants
-    RecordHist    \* TRUE: keep the history (GEN); FALSE: do not (MC)
+    RecordHist,   \* TRUE: keep the history (GEN); FALSE: do not (MC)
+    Gate(_)       \* TRUE in model checking; a random filter per action kind in simulation (GEN), so
+                  \* that the environment's budget is not spent in the first steps of a behaviour
 
 VARIABLES
     \* ---- environment: the node and the chain-sync connection -------------------------
@@ -122,7 +140,9 @@ EnvMayAct == /\ ~Finished
 CountMid  == nMid' = IF pc = "poll" THEN nMid + 1 ELSE nMid
 RecEnv(r) == IF pc = "poll" THEN RecMid(r) ELSE Rec(r)
 
-Extend(m) ==
+CanImport == \E t \in Targets : t <= Len(chain) /\ (t > target \/ (t = target /\ lastFailed))
+
+DoExtend(m) ==
     /\ EnvMayAct
     /\ Len(chain) + m <= MaxLen
     /\ chain' = chain \o [i \in 1..m |-> forks]
@@ -134,10 +154,10 @@ Extend(m) ==
 (* The node switches to another fork: everything after block k is replaced.  A node only      *)
 (* switches to a chain that is not shorter.  A read pointer on the abandoned part moves back  *)
 (* to the fork point and the client will be told so.                                          *)
-Fork(k, g) ==
+DoFork(k, g) ==
     /\ EnvMayAct
     /\ nForks < MaxForks /\ nImports >= 1
-    /\ k < Len(chain)
+    /\ k < Len(chain) /\ Len(chain) - k <= MaxDepth
     /\ LET n == Len(chain) - k + g IN
        /\ k + n <= MaxLen
        /\ chain' = SubSeq(chain, 1, k) \o [i \in 1..n |-> forks + 1]
@@ -149,7 +169,7 @@ Fork(k, g) ==
                    writes, nRestarts, nFaults, nCrashes, nImports, taintA, taintC, taintE>>
 
 (* The connection to the node is lost; the client notices at its next call. *)
-Fault ==
+DoFault ==
     /\ EnvMayAct
     /\ ~fault /\ nFaults < MaxFaults /\ nImports >= 1
     /\ fault' = TRUE /\ nFaults' = nFaults + 1
@@ -403,7 +423,7 @@ Failed ==
     /\ UNCHANGED <<envVars, dbVars, lastPolled, from, until, buf, polled, rbSlot, fwdSeen, noScan, auxVars>>
 
 (* process restart: the in-memory cursor and the connection are lost, the database is not *)
-Restart ==
+DoRestart ==
     /\ pc = "idle" /\ ~Finished /\ nRestarts < MaxRestarts /\ nImports >= 1
     /\ lastPolled' = None /\ NewConnection
     /\ nRestarts' = nRestarts + 1
@@ -413,7 +433,7 @@ Restart ==
                    taintA, taintC, taintE>>
 
 (* the process stops between two persistence steps of an import and is started again *)
-Crash ==
+DoCrash ==
     /\ Importing /\ nCrashes < MaxCrashes
     /\ lastPolled' = None /\ NewConnection
     /\ pc' = "idle" /\ lastFailed' = TRUE /\ buf' = <<>>
@@ -432,10 +452,16 @@ Init ==
     /\ nForks = 0 /\ nRestarts = 0 /\ nFaults = 0 /\ nCrashes = 0 /\ nImports = 0 /\ nMid = 0
     /\ taintA = FALSE /\ taintC = FALSE /\ taintE = FALSE /\ hist = <<>>
 
+(* Gate is TRUE in model checking; in simulation it thins out the environment (see MC module) *)
+EnvKind(k) == IF pc = "poll" THEN "mid" ELSE k
+Extend  == (Gate(EnvKind("extend")) \/ (pc = "idle" /\ ~CanImport)) /\ \E m \in ExtSteps : DoExtend(m)
+Fork    == Gate(EnvKind("fork")) /\ \E k \in ForkPoints, g \in ForkGrow : DoFork(k, g)
+Fault   == Gate(EnvKind("fault")) /\ DoFault
+Restart == Gate("restart") /\ DoRestart
+Crash   == Gate("crash") /\ DoCrash
+
 Next ==
-    \/ \E m \in ExtSteps : Extend(m)
-    \/ \E k \in ForkPoints, g \in ForkGrow : Fork(k, g)
-    \/ Fault
+    \/ Extend \/ Fork \/ Fault
     \/ \E t \in Targets : ImportBegin(t)
     \/ Intersect \/ NextMsg \/ Store \/ Remove \/ EndScan
     \/ ComputeRoots \/ ComputeLegacyRoots \/ Prune \/ Done \/ Failed
@@ -451,8 +477,15 @@ TypeOK ==
     /\ \A b \in db : b[1] >= 1
 
 (* GEN: a finished behaviour is printed with what the model predicts for each import *)
-GenPrint ==
-    Finished => PrintT(<<"REPLAY", ToJson([L |-> L, init_len |-> InitLen, max_poll |-> MaxPoll, keep |-> Keep,
-                                             tx_period |-> TxPeriod, tx_on |-> TxOn, tx_shift |-> TxShift,
-                                             taint_a |-> taintA, taint_c |-> taintC, taint_e |-> taintE, ops |-> hist])>>)
+Script == [L |-> L, init_len |-> InitLen, max_poll |-> MaxPoll, keep |-> Keep,
+           tx_period |-> TxPeriod, tx_on |-> TxOn, tx_shift |-> TxShift,
+           taint_a |-> taintA, taint_c |-> taintC, taint_e |-> taintE, ops |-> hist]
+GenPrint == Finished => PrintT(<<"REPLAY", ToJson(Script)>>)
+
+(* The same invariants, printing the history of a counterexample (with RecordHist = TRUE) so   *)
+(* that the driver can execute it on the real code: only the real outcome decides (DESIGN 3.6) *)
+Cex(name) == PrintT(<<"CEX", ToJson(Script @@ [inv |-> name])>>)
+ConvergedX               == Converged \/ ~Cex("Converged")
+RootDependsOnlyOnPrefixX == RootDependsOnlyOnPrefix \/ ~Cex("RootDependsOnlyOnPrefix")
+CompletesX               == Completes \/ ~Cex("Completes")
 =============================================================================
